@@ -1,20 +1,20 @@
 CONSTANT Families = {"small", "hash", "fit", "poly", "fewbk"}
 CONSTANT SmallN = {1, 2, 3}
 CONSTANT SmallBW = {1, 2, 3, 6}
-CONSTANT OffSel = "narrow"
-CONSTANT DiagVals = {1, 3}
-CONSTANT HashN = {4, 6}
+CONSTANT OffSel = "wide"
+CONSTANT DiagVals = {1, 2, 3}
+CONSTANT HashN = {4, 5, 6, 7, 8}
 CONSTANT HashBW = {1, 2, 3, 4, 5, 6}
-CONSTANT HashPar = {0, 1, 3}
+CONSTANT HashPar = {0, 1, 2, 3, 4}
 CONSTANT Variants = {"indef", "nonfinite1", "mininf"}
-CONSTANT FitDesigns = {"o1s2", "o1s4", "o2s1", "o2s2", "o3s1"}
+CONSTANT FitDesigns = {"o1s1", "o1s2", "o1s4", "o2s1", "o2s2", "o2s2w", "o3s1", "o3s1w"}
 CONSTANT FitMult = {0, 1}
 CONSTANT FitNmin = 2
 CONSTANT FitNmax = 4
-CONSTANT YSel = "patterns"
+CONSTANT YSel = "all"
 CONSTANT WMode = "patterns"
 CONSTANT PolyNords = {1, 2, 3, 4, 5, 6}
-CONSTANT PolySegs = {1, 2}
+CONSTANT PolySegs = {1, 2, 3}
 CONSTANT MNords = {1}
 CONSTANT MaxS = 1
 CONSTANT CntFullS = 3
